@@ -43,3 +43,27 @@ Print Assumptions C16_counters_exact.
 Example C16_example : counter_line (mkCnt [(4, 2%Z); (17, 5%Z)] 0 0%Z)
   = Obs.str "DF4:2 DF17:5 ".
 Proof. vm_compute. reflexivity. Qed.
+
+(** ---- the filter in both directions ---- *)
+From SQ Require Import Base Table TableProofs FilterProof.
+
+
+(** a line is applied exactly when it is a frame with a non-zero address whose downlink format is listed -- in any order, with or without repetition -- or no -f is given *)
+Theorem C16_applied_iff : forall (o : opts) (line : list N) (df a : N), classify o line = Ok (Applied df a) <-> (exists m : list N, get_message line = Ok (Some m) /\ get_downlink_format m = Ok (Some df) /\ get_icao m df = Ok (Some a) /\ passes o df).
+Proof. exact classify_spec. Qed.
+Check C16_applied_iff : forall (o : opts) (line : list N) (df a : N), classify o line = Ok (Applied df a) <-> (exists m : list N, get_message line = Ok (Some m) /\ get_downlink_format m = Ok (Some df) /\ get_icao m df = Ok (Some a) /\ passes o df).
+Print Assumptions C16_applied_iff.
+
+(** the converse of C16_filter_admits_only_listed: a frame of a listed format IS applied, from any state *)
+Theorem C16_listed_is_applied : forall (o : opts) (now : Z) (s : state) (line m : list N) (df a : N), get_message line = Ok (Some m) -> get_downlink_format m = Ok (Some df) -> get_icao m df = Ok (Some a) -> passes o df -> exists (s' : state) (rf : bool), step_line o now s line = Ok (s', rf, Applied df a).
+Proof. exact listed_is_applied. Qed.
+Check C16_listed_is_applied : forall (o : opts) (now : Z) (s : state) (line m : list N) (df a : N), get_message line = Ok (Some m) -> get_downlink_format m = Ok (Some df) -> get_icao m df = Ok (Some a) -> passes o df -> exists (s' : state) (rf : bool), step_line o now s line = Ok (s', rf, Applied df a).
+Print Assumptions C16_listed_is_applied.
+
+(** two -f lists with the same members treat every line alike (e.g. -f 21 -f 4 and -f 4 -f 21) *)
+Theorem C16_filter_order_irrelevant : forall (o1 o2 : opts) (line : list N), (forall df : N, passes o1 df <-> passes o2 df) -> classify o1 line = classify o2 line.
+Proof. exact filter_order_irrelevant. Qed.
+Check C16_filter_order_irrelevant : forall (o1 o2 : opts) (line : list N), (forall df : N, passes o1 df <-> passes o2 df) -> classify o1 line = classify o2 line.
+Print Assumptions C16_filter_order_irrelevant.
+
+
